@@ -101,10 +101,13 @@ func (su *c06suite) ident(s, k int, svc bool) *network.ServerIdentity {
 	}
 	genuine := network.NewServerIdentity(su.pts[s+1].Clone(), network.NewLocalAddress(fmt.Sprintf("127.0.0.1:%d", 3000+s)))
 	si := genuine
-	if k != s+1 {
+	if k < 0 {
+		// an entry without public key: it can be found by its id, no node can be built on it
+		si = &network.ServerIdentity{ID: genuine.ID, Address: genuine.Address}
+	} else if k != s+1 {
 		si = &network.ServerIdentity{Public: su.pts[k].Clone(), ID: genuine.ID, Address: genuine.Address}
 	}
-	if svc {
+	if svc && k >= 0 {
 		si = &network.ServerIdentity{Public: si.Public, ID: si.ID, Address: si.Address,
 			ServiceIdentities: []network.ServiceIdentity{{Name: "svc", Suite: su.s.String(), Public: su.pts[s+2].Clone()}}}
 	}
@@ -379,6 +382,8 @@ func c06errClass(err error) string {
 		return "err:not-one-root"
 	case strings.Contains(s, "didn't find node in roster"):
 		return "err:unknown-server"
+	case strings.Contains(s, "no public key"):
+		return "err:no-key"
 	}
 	return "err:codec"
 }
@@ -579,6 +584,9 @@ func c06exec(c *h.Ctx, cs *h.Case) {
 			if !ok {
 				l = -1
 			}
+			if rid.IsNil() {
+				l = 0
+			}
 			var ts []string
 			for _, t := range tids {
 				ts = append(ts, strconv.Itoa(cc.tidLabel[t]))
@@ -666,6 +674,9 @@ func c06exec(c *h.Ctx, cs *h.Case) {
 						}
 						s, ok1 := atoi(x[0])
 						k, ok2 := atoi(x[1])
+						if x[1] == "-" {
+							k, ok2 = -1, true
+						}
 						if !ok1 || !ok2 || s >= c06maxServers || k > c06maxSum {
 							return
 						}
@@ -691,7 +702,9 @@ func c06exec(c *h.Ctx, cs *h.Case) {
 					if len(sis) > 0 {
 						agg := cc.su.s.Point().Null()
 						for _, si := range sis {
-							agg = cc.su.s.Point().Add(agg, si.Public)
+							if si.Public != nil {
+								agg = cc.su.s.Point().Add(agg, si.Public)
+							}
 						}
 						ro.Aggregate = agg
 					}
@@ -718,7 +731,7 @@ func c06exec(c *h.Ctx, cs *h.Case) {
 					}
 					it := its[pos]
 					pos++
-					if it.a >= len(ro.List) {
+					if it.a >= len(ro.List) || ro.List[it.a].Public == nil {
 						return nil, false
 					}
 					n := onet.NewTreeNode(it.a, ro.List[it.a])
@@ -770,7 +783,7 @@ func c06exec(c *h.Ctx, cs *h.Case) {
 				switch {
 				case tk[5] == "add" && len(tk) == 8:
 					p, ok := atoi(tk[7])
-					if !ok || p >= len(old.Roster.List) {
+					if !ok || p >= len(old.Roster.List) || old.Roster.List[p].Public == nil {
 						return
 					}
 					nodes[k].AddChild(onet.NewTreeNode(p, old.Roster.List[p]))
@@ -814,7 +827,7 @@ func c06exec(c *h.Ctx, cs *h.Case) {
 					return
 				}
 				obs = cc.showTree(t2)
-				if ro == nil || !ro.ID.Equal(t.Roster.ID) {
+				if ro == nil || t.Roster == nil || !ro.ID.Equal(t.Roster.ID) {
 					cs.Fail("mismatch-accepted", "a tree was rebuilt with a missing or mismatching roster — "+op)
 				} else if ro == t.Roster {
 					if d := c06sameTree(t, t2); d != "" {
@@ -839,13 +852,19 @@ func c06exec(c *h.Ctx, cs *h.Case) {
 				t2 := &onet.Tree{}
 				if err := t2.BinaryUnmarshaler(cc.su.s, buf); err != nil {
 					obs = c06errClass(err)
-					cs.Fail("roundtrip-error", "BinaryUnmarshaler of a tree's own binary form failed: "+err.Error())
+					if t.Roster != nil {
+						cs.Fail("roundtrip-error", "BinaryUnmarshaler of a tree's own binary form failed: "+err.Error())
+					}
 					return
 				}
 				obs = cc.showTree(t2)
-				if d := c06sameTree(t, t2); d != "" {
+				if t.Roster == nil {
+					cs.Fail("mismatch-accepted", "a tree without roster was rebuilt from its binary form — "+op)
+				} else if d := c06sameTree(t, t2); d != "" {
 					cs.Fail("roundtrip-differs", d+" — "+op)
 				}
+			case "strip", "equal", "frommarshal", "binaryun":
+				obs = cc.moreOps(cs, tk, op, optRoster)
 			case "maketree":
 				if len(tk) != 4 {
 					return
@@ -861,7 +880,7 @@ func c06exec(c *h.Ctx, cs *h.Case) {
 				if !bad {
 					var chk func(n *onet.TreeMarshal)
 					chk = func(n *onet.TreeMarshal) {
-						if i, _ := ro.Search(n.ServerIdentityID); i < 0 {
+						if i, e := ro.Search(n.ServerIdentityID); i < 0 || e.Public == nil {
 							bad = true
 						}
 						for _, c := range n.Children {
@@ -1003,7 +1022,7 @@ func c06exec(c *h.Ctx, cs *h.Case) {
 						}
 					}
 					ro, ok := optRoster(tk[4])
-					if !ok {
+					if !ok || c06keyless(ro) {
 						return
 					}
 					msg = &onet.ResponseTree{TreeMarshal: tm, Roster: ro}
@@ -1022,7 +1041,7 @@ func c06exec(c *h.Ctx, cs *h.Case) {
 				case tk[2] == "roster" && len(tk) == 4:
 					l, ok1 := atoi(tk[3])
 					ro, ok2 := cc.rosters[l]
-					if !ok1 || !ok2 {
+					if !ok1 || !ok2 || c06keyless(ro) {
 						return
 					}
 					msg = ro
@@ -1330,6 +1349,8 @@ func (t *c06tspec) pruned(label, tid, k int) *c06tspec {
 	return n
 }
 
+var c06junkKinds = []string{"empty", "unknown", "othertype"}
+
 func c06gen(c *h.Ctx, yield func(*h.Case)) {
 	r := c.Rng
 	emit := func(class string, ops []string) {
@@ -1428,6 +1449,13 @@ func c06gen(c *h.Ctx, yield func(*h.Case)) {
 							"c06 maketree "+t.desc(t.tid, 1)+" 1")
 					}
 				}
+				// Tree.Equal; a tree value without roster; bytes that are no description / no binary form;
+				// a binary form whose roster was exchanged for another, or dropped
+				ops = append(ops, "c06 equal 1 1", fmt.Sprintf("c06 equal 1 %d", 2+r.Intn(3)), fmt.Sprintf("c06 equal %d 1", 2+r.Intn(3)),
+					"c06 strip 12 1", "c06 marshal-rt 12 1", "c06 marshal-rt 12 nil", "c06 binary-rt 12", "c06 equal 12 1",
+					"c06 frommarshal "+c06junkKinds[r.Intn(3)]+" 1", "c06 frommarshal "+c06junkKinds[r.Intn(3)]+" nil",
+					"c06 binaryun junk "+c06junkKinds[r.Intn(3)], "c06 binaryun splice 1 1", "c06 binaryun splice 1 2", "c06 binaryun splice 1 nil",
+					"c06 binaryun splice 12 1", fmt.Sprintf("c06 binaryun splice %d 1", 2+r.Intn(3)))
 				// the nodes of tree 1 re-used: a node deep in the tree gets a leaf, loses it again, an
 				// inner node is pruned — NewTree over the same root each time, then the round trips
 				{
@@ -1459,6 +1487,19 @@ func c06gen(c *h.Ctx, yield func(*h.Case)) {
 		ro := randRoster(1, 1, tag, n)
 		sub := &c06rspec{2, 1, tag, append([]int{}, ro.servers[:n-1]...)} // same id, one server missing
 		ops := []string{ro.op(), sub.op(), (&c06rspec{3, 3, tag, nil}).op()}
+		// roster 4: the last server's entry carries no public key; roster 5: that, and the first server is missing
+		keyless := func(label int, servers []int) string {
+			var sv []string
+			for j, sl := range servers {
+				if j == len(servers)-1 {
+					sv = append(sv, fmt.Sprintf("%d/-", sl))
+				} else {
+					sv = append(sv, fmt.Sprintf("%d/%d", sl, sl+1))
+				}
+			}
+			return fmt.Sprintf("c06 roster %d 1 %d %s", label, tag, strings.Join(sv, ","))
+		}
+		ops = append(ops, keyless(4, ro.servers), keyless(5, ro.servers[1:]))
 		t := &c06tspec{label: 1, tid: 1, ro: ro}
 		t.pos, t.ar = randShape(1+r.Intn(8), n)
 		t.pos[len(t.pos)-1] = n - 1 // the server missing from roster 2 is used
@@ -1474,7 +1515,13 @@ func c06gen(c *h.Ctx, yield func(*h.Case)) {
 			"c06 maketree T1,R1,2;"+items+","+items+" 1", // two roots
 			fmt.Sprintf("c06 maketree T1,R1,1;%d/%d:0 1", ro.servers[0], c06maxServers-1), // unknown server
 			fmt.Sprintf("c06 maketree T0,R1,1;%d/%d:0 1", ro.servers[0], ro.servers[0]),
-			fmt.Sprintf("c06 maketree T7,R1,1;%d/%d:1,%d/%d:0 1", ro.servers[1], ro.servers[0], ro.servers[0], ro.servers[1]))
+			fmt.Sprintf("c06 maketree T7,R1,1;%d/%d:1,%d/%d:0 1", ro.servers[1], ro.servers[0], ro.servers[0], ro.servers[1]),
+			"c06 maketree "+good+" 4", // the roster entry of a server of the description has no public key
+			"c06 maketree "+good+" 5", // … and another server is missing: the first offending node decides
+			"c06 marshal-rt 1 4", "c06 marshal-rt 1 5",
+			fmt.Sprintf("c06 maketree T1,R1,1;%d/%d:0 4", ro.servers[0], ro.servers[0]), // the keyless entry is not used: accepted (n ≥ 2)
+			fmt.Sprintf("c06 tree 8 8 4 %d/%d:0", n-1, ro.servers[n-1]),                 // no node can be made on a keyless entry
+			"c06 binaryun splice 1 4", "c06 frommarshal "+c06junkKinds[i%3]+" 4", "c06 binaryun junk "+c06junkKinds[(i+1)%3])
 		emit("malformed", ops)
 	}
 	// --- history part ----------------------------------------------------------------------------
@@ -1535,6 +1582,13 @@ func c06gen(c *h.Ctx, yield func(*h.Case)) {
 			ops = append(ops, "c06 h.request 1", "c06 h.msg tm "+t1.desc(1, 1), "c06 h.msg tm "+t1.desc(1, 1), "c06 h.msg roster 2", "c06 h.msg roster 1", "c06 h.msg roster 1", "c06 h.msg reqroster 1", "c06 h.msg reqroster 2", "c06 h.msg reqroster 0")
 			emit("history roster-then-tree", ops)
 		case 4: // roster known from a live instance
+			if (i/12)%3 == 2 {
+				// … whose tree is no longer in the store: the roster is read from the store (0cfb44b), so it is unknown
+				ops = append(ops, "c06 h.instance 2", "c06 h.expire 2", "c06 h.request 1", "c06 h.msg tm "+t1.desc(1, 1), "c06 h.msg reqroster 1",
+					"c06 h.register 2", "c06 h.request 3", "c06 h.msg tm "+ts[2].desc(3, 1), "c06 h.msg roster 1")
+				emit("history instance-roster", ops)
+				continue
+			}
 			ops = append(ops, "c06 h.instance 2", "c06 h.request 1", "c06 h.msg tm "+t1.desc(1, 1), "c06 h.request 4", "c06 h.msg tm "+t4.desc(4, 2), "c06 h.msg reqroster 1")
 			emit("history instance-roster", ops)
 		case 5: // mismatching rosters
@@ -1542,6 +1596,8 @@ func c06gen(c *h.Ctx, yield func(*h.Case)) {
 				"c06 h.msg tm "+t1.desc(1, 1), "c06 h.msg roster 3", "c06 h.msg roster 1")
 			emit("history mismatch", ops)
 		case 6: // empty and nil-id messages
+			ops = append(ops, fmt.Sprintf("c06 roster 5 0 %d %s", t1.ro.tag, strings.SplitN(t1.ro.op(), " ", 6)[5]),
+				"c06 h.request 1", "c06 h.msg tm "+t1.desc(1, 0), "c06 h.msg roster 5", "c06 h.msg resptree "+t1.desc(1, 0)+" 5", "c06 h.unrequest 1")
 			ops = append(ops, "c06 h.request 1", "c06 h.msg resptree "+t1.desc(0, 1)+" 1", "c06 h.msg tm "+t1.desc(0, 1), "c06 h.msg resptree T1,R1,0;- 1",
 				"c06 h.msg resptree T1,R1,2;"+strings.SplitN(t2.desc(1, 1), ";", 2)[1]+","+strings.SplitN(t2.desc(1, 1), ";", 2)[1]+" 1", "c06 h.msg reqtree 0 1", "c06 h.msg reqtree 77 1")
 			emit("history empty", ops)
@@ -1633,5 +1689,6 @@ func c06gen(c *h.Ctx, yield func(*h.Case)) {
 	}
 	// --- malformed lines -------------------------------------------------------------------------
 	emit("malformed-lines", []string{"c06 roster 1 1 0", "c06 tree 1 1 1 0/0:0", "c06 roster 1 1 0 3/4,5/6", "c06 tree 1 1 1 0/3:1", "c06 tree 1 1 1 2/3:0",
-		"c06 marshal-rt 9 1", "c06 maketree T1,R1,1 1", "c06 maketree X1,R1,1;3/3:0 1", "c06 h.msg tm T1,R1,1;3/3:1", "c06 h.msg frob 1", "c06 h.request x", "c06 h.reqfail", "c06 h.reqsend y", "c06 frob"})
+		"c06 marshal-rt 9 1", "c06 maketree T1,R1,1 1", "c06 strip 1 9", "c06 equal 1 9", "c06 frommarshal junk 1", "c06 frommarshal empty 9", "c06 binaryun junk x",
+		"c06 binaryun splice 9 1", "c06 binaryun", "c06 roster 2 2 0 3/-,5/6", "c06 tree 2 2 2 0/3:0", "c06 h.msg roster 2", "c06 h.msg resptree T1,R2,1;5/5:0 2", "c06 maketree X1,R1,1;3/3:0 1", "c06 h.msg tm T1,R1,1;3/3:1", "c06 h.msg frob 1", "c06 h.request x", "c06 h.reqfail", "c06 h.reqsend y", "c06 frob"})
 }
